@@ -136,6 +136,22 @@ def r3_keepset(idx, r):
     r.require(bool(reap) and all((fl.state_before(c) or {}).get("restore", (0, 0))[0] >= 1 for c in reap), "reapply-after-restore", rb, msg="kept values must be written back after the roll-back")
     loop = next((n for n in rb.node.body if isinstance(n, ast.For) and norm(n.iter) == "currentData.items()"), None)
     r.require(loop is not None, "reapply-loop", rb, msg="every captured parameter must be considered for re-application")
+    # the snapshot must still carry the enclosing scope's SINCE_BACKUP bit: it is taken BEFORE the bit is cleared
+    bu = idx.method(PC, "backUp")
+    if bu is None:
+        raise AnchorMissing("ParameterCollection.backUp")
+
+    def evb(n):
+        if isinstance(n, ast.Assign) and norm(n.targets[0]) == "self._backup":
+            return ["snap"]
+        if isinstance(n, (ast.AugAssign, ast.Assign)) and norm(n.target if isinstance(n, ast.AugAssign) else n.targets[0]) == "self.assigned":
+            return ["clear"]
+        return []
+    flb = Flow(bu.node, evb).run()
+    clears = [n for n in walk_local(bu.node) if evb(n) == ["clear"]]
+    r.require(bool(clears) and all((flb.state_before(c) or {}).get("snap", (0, 0))[0] >= 1 for c in clears), "backUp:snapshot-before-clearing-flag", bu, node=clears[0] if clears else bu.node,
+              msg="backUp clears the SINCE_BACKUP bit before pickling the state: the snapshot forgets that the collection was modified in the ENCLOSING scope, "
+                  "so after a nested scope the outer scope's keep-set is not re-applied and kept parameters revert")
     # Parameter definitions keep `assigned` only for the keep-set
     prb = idx.method("armi.reactor.parameters.parameterDefinitions.Parameter", "restoreBackup")
     branch = next((n for n in prb.node.body if isinstance(n, ast.If)), None)
@@ -245,12 +261,42 @@ def r6_inplace(idx, r):
         if attr == "_backup":
             continue
         for f, s in all_stores(idx, attr):
-            if f.cls is None or not f.cls.is_subclass_of(grid):
+            if ".tests" in f.module.name:
+                continue
+            if (f.cls is None or not f.cls.is_subclass_of(grid)) and "spatialGrid" not in (s.chain or "") and not (s.chain or "").startswith("self._"):
                 continue
             n += 1
             inplace = s.kind in ("subscript", "subscript-aug", "subscript-del", "mutcall", "aug")
             r.require(not inplace or copies, f"grid-state:{f.qualname}:{norm(s.stmt)[:60]}", f, node=s.stmt,
                       msg=f"`{norm(s.stmt)[:80]}` mutates {attr} in place, but backUp() saved that very object by reference: the backup changes with it and restoreBackup cannot undo the edit")
+    # (a') the same through a local alias:  z = grid._bounds[2]; z[:] = ...   (the alias IS the saved object or a part of it)
+    MUT = {"sort", "append", "extend", "insert", "pop", "remove", "clear", "reverse", "fill", "resize", "put", "itemset", "update"}
+    for m in idx.modules.values():
+        if not m.name.startswith("armi.") or ".tests" in m.name:
+            continue
+        for f in m.all_funcs():
+            aliases = {}
+            for st_ in walk_local(f.node):
+                if isinstance(st_, ast.Assign) and len(st_.targets) == 1 and isinstance(st_.targets[0], ast.Name):
+                    v = st_.value
+                    while isinstance(v, ast.Subscript):
+                        v = v.value
+                    if isinstance(v, ast.Attribute) and v.attr in saved and v.attr != "_backup":
+                        aliases[st_.targets[0].id] = (v.attr, st_)
+            if not aliases:
+                continue
+            for s in iter_stores(f.node):
+                base = s.node
+                while isinstance(base, (ast.Subscript, ast.Attribute)):
+                    base = base.value
+                if not (isinstance(base, ast.Name) and base.id in aliases):
+                    continue
+                if s.kind in ("subscript", "subscript-aug", "subscript-del") or (s.kind == "aug" and isinstance(s.node, ast.Name)) or (s.kind == "mutcall" and getattr(s, "method", None) in MUT):
+                    attr = aliases[base.id][0]
+                    n += 1
+                    r.require(copies, f"grid-state-alias:{f.qualname}:{norm(s.stmt)[:60]}", f, node=s.stmt,
+                              msg=f"`{norm(aliases[base.id][1])[:60]}` makes `{base.id}` an alias of the grid's {attr}, and `{norm(s.stmt)[:60]}` then edits it in place; "
+                                  f"backUp() saved {attr} by reference, so the retained copy changes too and restoreBackup cannot undo the edit")
     # (b) in-place mutation of parameter-held containers: frozen list
     for f in idx.all_funcs():
         for s in iter_stores(f.node):
